@@ -195,9 +195,13 @@ def run(check: Check, with_flags: bool = True):
   # outer loop: desired_num_steps
   outer = False
   inc = False
+  seen_outer = False
   for n in ff.cfg.nodes:
     if n.kind == 'while' and isinstance(n.ast.test, ast.BoolOp) and isinstance(n.ast.test.op, ast.Or) and len(n.ast.test.values) == 2:
       a, b = n.ast.test.values
+      if isinstance(a, ast.Compare) and isinstance(a.ops[0], ast.Is) and isinstance(b, ast.Compare) and len(b.ops) == 1 and txt(
+          a.left) in (txt(b.comparators[0]), txt(b.left)):
+        seen_outer = True
       if isinstance(a, ast.Compare) and isinstance(a.ops[0], ast.Is) and isinstance(b, ast.Compare) and isinstance(b.ops[0], ast.Lt) and txt(
           a.left) == txt(b.comparators[0]):
         limit_defs = [d for ds in ff.rd.defs_at.values() for d in ds if d.name == txt(a.left)]
@@ -206,7 +210,7 @@ def run(check: Check, with_flags: bool = True):
         inc = any(isinstance(st, ast.AugAssign) and txt(st.target) == cnt and isinstance(st.value, ast.Constant) and st.value.value == 1
                   for st in n.ast.body) and any(d.name == cnt and isinstance(d.value, ast.Constant) and d.value.value == 0
                                                for ds in ff.rd.defs_at.values() for d in ds)
-  check.ob('R-SIZE.steps', fi, 'while desired is None or num_steps < desired: ...; num_steps += 1', outer and inc,
+  check.ob('R-SIZE.steps', fi, 'while desired is None or num_steps < desired: ...; num_steps += 1', (outer and inc) if seen_outer else None,
            'exactly the computed number of batches is produced (or endlessly many when both limits are None)')
   _num_steps(check)
   pa = PurityAnalysis(repo)
